@@ -390,6 +390,16 @@ where
                     return;
                 }
 
+                // Per RFC 8945 § 4.2, the TTL of a TSIG record must be
+                // zero. This has to be checked on the field as it is on
+                // the wire: the TTL of the parsed record has been
+                // normalized (RFC 2181 § 8), which maps values with the
+                // most significant bit set to zero.
+                if peek_rr.raw_ttl() != 0 {
+                    context.response.set_rcode(Rcode::FORMERR);
+                    return;
+                }
+
                 // Parse the TSIG RR.
                 let message_without_tsig = peek_rr.message_to_rr();
                 let read_rr = match peek_rr.parse() {
